@@ -135,6 +135,25 @@ def dump(state, tokens):
     guards = sorted(HEX2ID.get(k, k) for k in state.guards)
     auth = sorted([k, rid(v)] for k, v in state.authorities.items())
     ident = {HEX2ID.get(k, k): tok(v) for k, v in state.routers.items() if k.startswith('$')}
+    # lookup by identity "always works": every LongName form of a listed relay ($FP, $FP~Nick, $FP=Nick — what CIRC lines and
+    # IRouterContainer callers pass) gives the relay object the view lists, through router_from_id as well as the dictionary
+    wrong = []
+    for k, v in list(state.routers.items()):
+        if not k.startswith('$'):
+            continue
+        for form in (k, k + '~' + v.name, k + '=' + v.name, k + '~', k + '=Other'):
+            try:
+                got = state.router_from_id(form)
+            except Exception as e:
+                got = type(e).__name__
+            if got is not v:
+                wrong.append([HEX2ID.get(k, k), form[41:42] or 'bare', 'another object' if not isinstance(got, str) else got])
+            if state.routers.get(k) is not v:
+                wrong.append([HEX2ID.get(k, k), form[41:42] or 'bare', 'the lookup replaced the listed relay'])
+                state.routers[k] = v
+    if wrong:
+        return {'relays': {str(k): v for k, v in sorted(relays.items())}, 'names': names, 'byname': byname, 'byhash': byhash, 'all': allr,
+                'guards': guards, 'auth': auth, 'longname_lookup_wrong': sorted(wrong)}, ident
     return {'relays': {str(k): v for k, v in sorted(relays.items())}, 'names': names, 'byname': byname, 'byhash': byhash, 'all': allr,
             'guards': guards, 'auth': auth}, ident
 
